@@ -270,3 +270,48 @@ def check_get_none_presence(ctx, fn, rule='T26', receivers=None):
                    'whose value is None are indistinguishable' % (txt(n), txt(u)), False, loc=loc(fn, u))
     if found == 0:
         ctx.ob(rule, fn.fq, 'no presence/equality decision is taken on a None-defaulted .get() result', True, loc=loc(fn), nontrivial=False)
+
+
+def _dnf(e, truth=True):
+    """DNF of a test expression as a list of conjunctions, each a list of (atom node, truth)."""
+    if isinstance(e, ast.UnaryOp) and isinstance(e.op, ast.Not):
+        return _dnf(e.operand, not truth)
+    if isinstance(e, ast.BoolOp):
+        is_and = isinstance(e.op, ast.And) == truth          # De Morgan under negation
+        parts = [_dnf(v, truth) for v in e.values]
+        if is_and:
+            out = [[]]
+            for pt in parts:
+                out = [a + b for a in out for b in pt]
+                if len(out) > 256:
+                    raise AnalysisError('guard too large for DNF')
+            return out
+        return [c for pt in parts for c in pt]
+    return [[(e, truth)]]
+
+
+def guard_dnf(fn, node):
+    """DNF of the conjunction of the enclosing if/while conditions under which `node` (inside fn) executes."""
+    par = {}
+    for n in ast.walk(fn.node):
+        for c in ast.iter_child_nodes(n):
+            par[c] = n
+    out = [[]]
+    cur = node
+    while cur in par:
+        p = par[cur]
+        if isinstance(p, (ast.If, ast.While)) and cur is not p.test:
+            if any(cur is st for st in p.body):
+                d = _dnf(p.test, True)
+            elif isinstance(p, ast.If) and any(cur is st for st in p.orelse):
+                d = _dnf(p.test, False)
+            else:
+                d = [[]]
+            out = [a + b for a in out for b in d]
+            if len(out) > 256:
+                raise AnalysisError('guard too large for DNF')
+        elif isinstance(p, ast.IfExp) and cur is not p.test:
+            d = _dnf(p.test, cur is p.body)
+            out = [a + b for a in out for b in d]
+        cur = p
+    return out
